@@ -3,6 +3,8 @@ import Girc.Drv.EventOps
 import Girc.Drv.PureOps
 import Girc.Drv.RunOps
 import Girc.Drv.ConcOps
+import Girc.Drv.GenOps
+import Girc.Drv.StsOps
 import Girc.Model.Names
 import Girc.Model.Glob
 import Girc.Spec.NameSpec
@@ -27,6 +29,6 @@ def handleBasic (op : String) (args : List String) : Option String :=
   | _, _ => none
 
 def handle (op : String) (args : List String) : Option String :=
-  (handleBasic op args) <|> (handleEvent op args) <|> (handlePure op args) <|> (handleRun op args) <|> (handleConc op args)
+  (handleBasic op args) <|> (handleEvent op args) <|> (handlePure op args) <|> (handleRun op args) <|> (handleConc op args) <|> (handleGen op args) <|> (handleSts op args)
 
 end Girc.Drv
